@@ -231,6 +231,14 @@ def _check_translation(res, index, cls, name, fn, scratch):
             continue
         else:
             bad = (e, f"writes {attr}: not part of a translation")
+    # TRANS-2 the stored position is the shape's own array, never the caller's
+    shared = [e for e in writes if e.rhs is not None and any(loc[0] == "param" for loc in e.rhs.all_aliases())]
+    if shared:
+        e = shared[0]
+        res.bad("TRANS-2", f"{label}:{e.loc[1]}:shared", e.where(), f"{label}.setter stores (an alias of) the caller's array in {e.loc[0]}.{e.loc[1]} "
+                f"via `{e.src()[:60]}`: a later in-place update of either object moves the other one's {e.loc[1].lstrip('_')} without its geometry")
+    else:
+        res.ok("TRANS-2", label, nontrivial=False)
     if bad:
         res.bad("TRANS-1", label, bad[0].where(), f"{label}.setter {bad[1]}")
     elif not moved:
